@@ -171,9 +171,11 @@ def show_id(ids):
 
 # ---- generation ----------------------------------------------------------------------
 def gen_segs(rng, dirty, is_sub, maxhash=2):
-    """segments of one name.  clean: letters only in literals.  dirty: digits in
+    """segments of one name.  clean: letters only in literals.  dirty = 'digits': clean
+    shapes, digits among the literal characters.  dirty = True: digits in
     literals, '#0', adjacent enumerations, a sub-tree name without '/'."""
-    alph = "abc" if not dirty else "abc01"
+    alph = "abc" if not dirty else ("abc12" if dirty == 'digits' else "abc01")
+    dirty = dirty is True
     segs = []
     ncomp = rng.choice([1, 1, 1, 2, 2, 3]) if is_sub or rng.random() < 0.3 else 1
     nh = 0
@@ -225,6 +227,7 @@ def gen_tree(rng, depth, dirty, maxports=5, leaf_maxhash=1):
     n = rng.randint(1, maxports)
     t = []
     pool = []
+    flavour, dirty = dirty, dirty is True
     for _ in range(n):
         is_sub = depth > 1 and rng.random() < 0.4
         if pool and rng.random() < (0.35 if dirty else 0.05):
@@ -237,7 +240,7 @@ def gen_tree(rng, depth, dirty, maxports=5, leaf_maxhash=1):
             elif r < 0.6 and segs[-1][0] == 'L' and len(segs[-1][1]) > 1:
                 segs[-1] = ('L', segs[-1][1][:-1])
         else:
-            segs = gen_segs(rng, dirty, is_sub, maxhash=(2 if is_sub else leaf_maxhash))
+            segs = gen_segs(rng, flavour, is_sub, maxhash=(2 if is_sub else leaf_maxhash))
         if is_sub and not (dirty and rng.random() < 0.2):
             if segs[-1][0] != 'L' or not segs[-1][1].endswith(b"/"):
                 if segs[-1][0] == 'L':
@@ -246,7 +249,7 @@ def gen_tree(rng, depth, dirty, maxports=5, leaf_maxhash=1):
                     segs.append(('L', b"/"))
         pool.append(list(segs))
         args = rng.choice([b"", b"", b":i", b"::i", b":", b":T:F"]) if not is_sub else b""
-        sub = gen_tree(rng, depth - 1, dirty, max(2, maxports - 1), leaf_maxhash) if is_sub else None
+        sub = gen_tree(rng, depth - 1, flavour, max(2, maxports - 1), leaf_maxhash) if is_sub else None
         t.append(mk_port(segs, args, gen_meta(rng), sub))
     return t
 
@@ -255,7 +258,7 @@ def gen_tree(rng, depth, dirty, maxports=5, leaf_maxhash=1):
 # (a line-by-line mirror of coq/Ports/NamesOk.v; the driver prints the value the
 #  extracted function gives, the plug-ins compare)
 def _litchar(c):
-    return 0 < c < 127 and c not in b":{*#" and not (48 <= c <= 57)
+    return 0 < c < 127 and c not in b":{*#"
 
 def _segs_ok(segs):
     for i, (k, v) in enumerate(segs):
@@ -265,8 +268,9 @@ def _segs_ok(segs):
         else:
             if not (0 <= v < 10**9):
                 return False
-            if i + 1 < len(segs) and segs[i + 1][0] == 'E':
-                return False
+            if i + 1 < len(segs):
+                if segs[i + 1][0] == 'E' or segs[i + 1][1][:1].isdigit():
+                    return False
     return True
 
 def _args_ok(a):
@@ -292,18 +296,74 @@ def _leaf_ok(segs, args):
         return False
     return _args_ok(args)
 
-def _sub_ok(segs, args):
-    if args != b"":
-        return False
-    if len(segs) == 1 and segs[0][0] == 'L':
-        t = segs[0][1]
-        return t.endswith(b"/") and _text_ok(t[:-1])
-    if len(segs) == 3 and segs[0][0] == 'L' and segs[1][0] == 'E' and segs[2] == ('L', b"/"):
-        return _text_ok(segs[0][1]) and 0 <= segs[1][1] < 10**9
-    return False
+def split_components(segs):
+    """the segments of a sub-tree name as the Coq side structures them: every literal
+    cut behind each of its '/' ("a#3/b#2/c/" = a #3 / b #2 / c/)"""
+    out = []
+    for k, v in segs:
+        if k == 'E':
+            out.append((k, v))
+            continue
+        cur = b""
+        for c in v:
+            cur += bytes([c])
+            if c == 47:
+                out.append(('L', cur)); cur = b""
+        if cur:
+            out.append(('L', cur))
+    return out
 
-def _key(segs):
-    return b"".join(v if k == 'L' else b"#" for k, v in segs)
+def _comps_ok(segs):
+    """one or more components "text/" or "text#N/" (NamesModel.comps_okb)"""
+    i = 0
+    while i < len(segs):
+        k, t = segs[i]
+        if k != 'L':
+            return False
+        if i + 1 < len(segs) and segs[i + 1][0] == 'E':
+            if not (i + 2 < len(segs) and segs[i + 2] == ('L', b"/")):
+                return False
+            if not (_text_ok(t) and 0 <= segs[i + 1][1] < 10**9):
+                return False
+            i += 3
+        else:
+            if not (t.endswith(b"/") and _text_ok(t[:-1])):
+                return False
+            i += 1
+    return True
+
+def _sub_ok(segs, args):
+    if args != b"" or not segs:
+        return False
+    return _comps_ok(split_components(segs))
+
+def _toks(segs):
+    """the tokens of a path part: its literal characters (ints), and '#' for every '#N'"""
+    out = []
+    for k, v in segs:
+        if k == 'L':
+            out += list(v)
+        else:
+            out.append('#')
+    return out
+
+def _clash(a, b):
+    """NamesModel.clashb: literal characters must agree, '#N' against '#M' goes on behind both;
+    the end of either name, or a '#N' against a literal digit, is a clash"""
+    i = 0
+    while True:
+        if i >= len(a) or i >= len(b):
+            return True
+        x, y = a[i], b[i]
+        if x == '#' and y == '#':
+            pass
+        elif x == '#':
+            return 48 <= y <= 57
+        elif y == '#':
+            return 48 <= x <= 57
+        elif x != y:
+            return False
+        i += 1
 
 def _table_keys_free(t):
     ks = []
@@ -311,10 +371,10 @@ def _table_keys_free(t):
         r = _raw_segs(p)
         if r is None:
             return False
-        ks.append(_key(r[0]))
+        ks.append(_toks(r[0]))
     for i in range(len(ks)):
         for j in range(i + 1, len(ks)):
-            if ks[j].startswith(ks[i]) or ks[i].startswith(ks[j]):
+            if _clash(ks[i], ks[j]):
                 return False
     return True
 
